@@ -120,6 +120,13 @@ class Closure:
         self.node, self.env, self.interp, self.qualname, self.self_obj = node, env, interp, qualname, self_obj
 
 
+class LocalClass:
+    """class defined inside a function body"""
+
+    def __init__(self, node, interp, env):
+        self.node, self.interp, self.env = node, interp, env
+
+
 class ModRef:
     def __init__(self, name):
         self.name = name
@@ -641,7 +648,14 @@ class Interp:
             return o
         if isinstance(v, ModRef):
             if v.name.startswith('emg3d.'):
-                return ModRef(v.name)
+                sub = v.name.split('.', 1)[1].replace('.', '/')
+                try:
+                    node, _, _ = intake.func(f'{sub}.{attr}')
+                except (intake.IntakeError, FileNotFoundError):
+                    return Opaque(f'{v.name}.{attr}')
+                if isinstance(node, ast.ClassDef):
+                    return ClassRef(sub, attr)
+                return ('repo', sub, attr)
             if v.name == 'emg3d':
                 return ModRef('emg3d.' + attr)
             if v.name in ('numpy', 'np', 'math') and attr in ('inf', 'pi', 'nan', 'e'):
@@ -725,7 +739,7 @@ class Interp:
             if isinstance(v, (list, tuple, str)) and all(not is_sym(x) and not isinstance(x, Opaque) for x in (lo, hi, st)):
                 return v[slice(lo, hi, st)]
             if isinstance(v, NDArr):
-                return NDArr(v.store, view='slice')
+                return NDArr(v.store, view=('slice', lo, hi, st, v.view))
             return Opaque('slice')
         k = self.ev(n.slice, env)
         return self.getitem(v, k, n)
@@ -864,6 +878,13 @@ class Interp:
             return sub.call_closure(Closure(fnode, {}, sub, qualname=q), args, kwargs, node)
         if isinstance(f, ClassRef):
             return self.instantiate(f, args, kwargs, node)
+        if isinstance(f, LocalClass):
+            obj = Obj(f.node.name, mod=None)
+            ctx.event('new', cls='local:' + f.node.name, obj=obj)
+            for b in f.node.body:
+                if isinstance(b, ast.FunctionDef) and b.name == '__init__':
+                    f.interp.call_closure(Closure(b, dict(f.env), f.interp, self_obj=obj), args, kwargs, node)
+            return obj
         if isinstance(f, LibFn):
             return self.libcall(f, args, kwargs, node)
         if isinstance(f, ModRef):
@@ -1013,6 +1034,9 @@ class Interp:
 
     def st_FunctionDef(self, s, env):
         env[s.name] = Closure(s, env, self, qualname=None)
+
+    def st_ClassDef(self, s, env):
+        env[s.name] = LocalClass(s, self, env)
 
     def st_Global(self, s, env):
         pass
